@@ -54,6 +54,8 @@ def cases(tier, seed):
         yield "big", dict(kind="grid14")
     for names in (["blend3", "negative"], ["point"], ["tiny", "small"]):
         yield "history", dict(names=names)
+    for k, names in enumerate((["blend2", "negative", "point"], ["extended", "small"], ["blend3", "edge"], ["nanblock", "tiny", "negative"])):
+        yield "cli", dict(names=names, k=k)
 
 
 def hash_small(seq):
@@ -304,5 +306,81 @@ def ev_history(case, ctx):
             ctx.violation("a fresh process (PYTHONHASHSEED=%s) gives a different catalogue (%s)" % (hs, sig), "repro_process|" + sig)
 
 
+def ev_cli(case, ctx):
+    """the aegean command line: the tables it writes hold the catalogue the API returns (blind + island, then priorized on
+    its own output), and every row passes the same invariants"""
+    import logging
+    from AegeanTools import catalogs
+    from AegeanTools.CLI import aegean as cli
+    from AegeanTools.models import ComponentSource, IslandSource
+    d = os.environ["VERIF_SCRATCH"]
+    names, k = case["names"], case["k"]
+    hdr, img, srcs = scenes.build_scene(names)
+    f = os.path.join(d, "c03cli.fits")
+    scenes.write_image(f, hdr, img)
+    sig = "cli=" + "+".join(names)
+    ctx.count("cli_runs")
+    ctx.nontrivial(sig)
+    logging.disable(logging.CRITICAL)
+    docov = bool(k % 2)
+    tab = os.path.join(d, "c03cli_out.csv")
+    for sfx in ("_comp", "_isle"):
+        if os.path.exists(tab.replace(".csv", sfx + ".csv")):
+            os.remove(tab.replace(".csv", sfx + ".csv"))
+    argv = [f, "--forcerms", str(scenes.RMS), "--forcebkg", "0", "--cores", "1", "--negative", "--island", "--table", tab]
+    if not docov:
+        argv.append("--nocov")
+    try:
+        cli.main(argv)
+    except SystemExit:
+        pass
+    except Exception as e:
+        ctx.violation("aegean CLI raised %r (%s)" % (e, sig), "cli_raise|" + sig)
+        return
+    api = scenes.finder().find_sources_in_image(f, rms=scenes.RMS, bkg=0.0, cores=1, docov=docov, nonegative=False, doislandflux=True)
+    api_c = [s_ for s_ in api if isinstance(s_, ComponentSource)]
+    api_i = [s_ for s_ in api if isinstance(s_, IslandSource)]
+    fc, fi = tab.replace(".csv", "_comp.csv"), tab.replace(".csv", "_isle.csv")
+    got_c = catalogs.table_to_source_list(catalogs.load_table(fc)) if os.path.exists(fc) else []
+    got_i = catalogs.table_to_source_list(catalogs.load_table(fi), src_type=IslandSource) if os.path.exists(fi) else []
+    if len(got_c) != len(api_c) or len(got_i) != len(api_i):
+        ctx.violation("aegean CLI tables hold %d components / %d islands, the API returns %d / %d (%s)" % (len(got_c), len(got_i), len(api_c), len(api_i), sig),
+                      "cli_counts|" + sig)
+        return
+    for a_, b_ in zip(sorted(got_c, key=lambda s_: (s_.island, s_.source)), sorted(api_c, key=lambda s_: (s_.island, s_.source))):
+        for fld in ("island", "source", "ra", "dec", "peak_flux", "int_flux", "a", "b", "pa", "flags", "err_a", "err_ra", "ra_str", "dec_str"):
+            x, y = getattr(a_, fld), getattr(b_, fld)
+            same = (x == y) or (isinstance(y, float) and (abs(x - y) <= 1e-9 * max(abs(y), 1e-30) or (x != x and y != y)))
+            if not same:
+                ctx.violation("aegean CLI table: %s of component (%r,%r) is %r, API %r (%s)" % (fld, b_.island, b_.source, x, y, sig), "cli_values|" + sig)
+                return
+    check_components(got_c, ctx, sig + ",table")
+    # priorized through the CLI on its own output
+    if got_c:
+        tab2 = os.path.join(d, "c03cli_p.csv")
+        if os.path.exists(tab2.replace(".csv", "_comp.csv")):
+            os.remove(tab2.replace(".csv", "_comp.csv"))
+        stage = 1 + k % 3
+        try:
+            cli.main([f, "--forcerms", str(scenes.RMS), "--forcebkg", "0", "--cores", "1", "--nocov", "--priorized", str(stage), "--input", fc, "--table", tab2])
+        except SystemExit:
+            pass
+        except Exception as e:
+            ctx.violation("aegean CLI --priorized raised %r (%s)" % (e, sig), "cli_raise_priorized|" + sig)
+            return
+        fp = tab2.replace(".csv", "_comp.csv")
+        got_p = catalogs.table_to_source_list(catalogs.load_table(fp)) if os.path.exists(fp) else []
+        api_p = scenes.finder().priorized_fit_islands(f, catalogue=fc, rms=scenes.RMS, bkg=0.0, cores=1, docov=False, stage=stage)
+        ctx.outcome("cli_priorized=%d" % len(got_p))
+        if len(got_p) != len(api_p):
+            ctx.violation("aegean CLI --priorized %d wrote %d components, the API returns %d (%s)" % (stage, len(got_p), len(api_p), sig), "cli_priorized_count|" + sig)
+            return
+        check_components(got_p, ctx, sig + ",priorized table", priorized=True, input_uuids=set(str(s_.uuid) for s_ in got_c))
+        for a_, b_ in zip(sorted(got_p, key=lambda s_: str(s_.uuid)), sorted(api_p, key=lambda s_: str(s_.uuid))):
+            if str(a_.uuid) != str(b_.uuid) or abs(a_.peak_flux - b_.peak_flux) > 1e-9 * abs(b_.peak_flux) or (a_.island, a_.source) != (b_.island, b_.source):
+                ctx.violation("aegean CLI --priorized: component %s differs from the API result (%s)" % (a_.uuid, sig), "cli_priorized_values|" + sig)
+                return
+
+
 def evaluate(clause, case, ctx):
-    dict(scene=ev_scene, big=ev_big, history=ev_history)[clause](case, ctx)
+    dict(scene=ev_scene, big=ev_big, history=ev_history, cli=ev_cli)[clause](case, ctx)
